@@ -91,9 +91,19 @@ def eval_case(case):
     pub, sk = key.public_point, key.secret_exponent
     src = key.public_key_hash()
     contents = [make_content(rng, k, src, key.public_key()) for k in case['kinds']]
+    if case.get('tail') is not None and contents:
+        # steer the LAST BYTE of the forged group (line breaks, blanks, NUL, 0xff …): the message that is signed is the forged bytes
+        # as they are, whatever text-like bytes they end with
+        tb, last = case['tail'], contents[-1]
+        if last['kind'] == 'transaction':
+            last['parameters'] = {'entrypoint': 'default', 'value': {'bytes': rbytes(rng, 3).hex() + f'{tb:02x}'}}
+        elif last['kind'] == 'endorsement':
+            last['level'] = (rng.randrange(0, 2 ** 23) << 8) | tb
+        elif last['kind'] == 'failing_noop':
+            last['arbitrary'] = last['arbitrary'] + chr(tb)
     chain, branch = case['chain'], case['branch']
     kinds = [c['kind'] for c in contents]
-    base = {'curve': curve, 'secret': secret.hex(), 'kinds': kinds, 'chain': chain, 'shape': case['shape']}
+    base = {'curve': curve, 'secret': secret.hex(), 'kinds': kinds, 'chain': chain, 'shape': case['shape'], **({'last_forged_byte': case['tail']} if case.get('tail') is not None else {})}
     out, viol = [], []
     stub = StubContext(key)
     g = OperationGroup(context=stub, contents=contents, chain_id=chain, branch=branch)
@@ -324,6 +334,12 @@ def run(ctx):
                 shape, kinds = 'empty', []
             cases.append({'curve': curve, 'secret': random_secret(rng, curve), 'kinds': kinds, 'shape': shape, 'chain': chain,
                           'branch': b58('B', rbytes(rng, 32)), 'seed': rng.getrandbits(48), 'independent': True})
+    # groups whose forged bytes end with a byte a text-minded helper might trim (LF, CR, blank, tab, NUL, 0xff, 0x85), in both watermark classes
+    for j, tb in enumerate([0x0a, 0x0d, 0x20, 0x09, 0x00, 0xff, 0x0b, 0x0c, 0x85] if quick else [0x0a, 0x0d, 0x20, 0x09, 0x00, 0xff, 0x0b, 0x0c, 0x85, 0x1c, 0x1f, 0xa0] * 3):
+        for curve in (K.CURVES if j < 2 else [c for c in K.CURVES if c != 'BL'][j % 3:j % 3 + 1]):
+            for shape, kinds in (('plain', ['transaction']), ('consensus', ['endorsement']), ('plain', ['failing_noop'])):
+                cases.append({'curve': curve, 'secret': random_secret(rng, curve), 'kinds': kinds, 'shape': shape, 'chain': b58('Net', rbytes(rng, 4)),
+                              'branch': b58('B', rbytes(rng, 32)), 'seed': rng.getrandbits(48), 'independent': True, 'tail': tb})
     workers = int(os.environ.get('VERIF_WORKERS', '8'))
     order = sorted(range(len(cases)), key=lambda i: cases[i]['curve'] != 'BL')
     t0 = time.time()
